@@ -120,6 +120,7 @@ def _build_unit_queries():
 def h_parse_size(X):
     from mitmproxy.utils import human
 
+    X.opaque_str(True)  # symbolic ints are only formatted into messages; the concrete replay prints the real values
     f = getattr(human.parse_size, "__wrapped__", human.parse_size)
     kind = X.choose("kind", ["number", "none"])
     if kind == "none":
@@ -198,6 +199,7 @@ def _page_ok(X, out, key, what, method=b"GET"):
 def h_early(X):
     from mitmproxy.proxy.layers import http as H
 
+    X.opaque_str(True)
     direction = X.choose("direction", ["request", "response"])
     L = X.int("L", 0, BIG) if X.boolean("limit_set") else None
     T = X.int("T", 0, BIG) if X.boolean("threshold_set") else None
@@ -274,6 +276,7 @@ def h_layer(X, K, sizes, addons, framings):
     from mitmproxy.connection import ConnectionState
     from mitmproxy.proxy.layers import http as H
 
+    X.opaque_str(True)
     direction = X.choose("direction", ["request", "response"])
     framing = X.choose("framing", [f for f in framings if f != "eof" or direction == "response"])
     L = X.int("L", 0, BIG) if X.boolean("limit_set") else None
@@ -362,6 +365,8 @@ def h_layer(X, K, sizes, addons, framings):
         def monitor(where):
             m = state["mode"]
             held = bufs()
+            if m == "buffer" and framing == "cl" and state["S"] == D:
+                return  # Content-Length reached: the message is complete and is being forwarded (judged at the end)
             if m == "buffer":
                 X.check(held == state["S"], "C07/monitor/buffer-content", f"{where}: buffering, {state['S']} bytes received but {held} held")
                 if L is not None:
@@ -371,9 +376,10 @@ def h_layer(X, K, sizes, addons, framings):
             elif m == "stream":
                 body, garbage = peer_body_so_far()
                 exp = expected_stream_output()
+                X.check(not garbage, f"C07/stream/{direction}/{framing}/bytes-after-last-chunk",
+                        f"{where}: the peer saw the terminating chunk and then more bytes: {garbage!r} (received {state['recv']!r}, addon={addon_choice[0]})")
                 X.check((body or b"") == exp, f"C07/stream/{direction}/{framing}/not-relayed-immediately",
                         f"{where}: received {state['recv']!r}, transform outputs {exp!r}, but the peer has {body!r} (addon={addon_choice[0]})")
-                X.check(not garbage, f"C07/stream/{direction}/{framing}/bytes-after-last-chunk", f"{where}: peer got bytes after the terminating chunk: {garbage!r}")
                 if not store:
                     X.check(held == 0, "C07/monitor/streaming-holds-bytes", f"{where}: streaming without store_streamed_bodies but {held} bytes held")
             elif m == "aborted":
@@ -479,6 +485,8 @@ def h_layer(X, K, sizes, addons, framings):
             rest = raw[pos:]
         except (http1ref.Incomplete, http1ref.ParseError) as e:
             X.fail(f"C07/{mode}/response/{framing}/peer-message-broken", f"client-side bytes do not parse as one complete response ({type(e).__name__}: {e}; closed={closed}): {raw!r}")
+    if mode == "stream" and framing == "chunked":
+        X.check(rest == b"", f"C07/stream/{direction}/chunked/bytes-after-last-chunk", f"the peer saw the terminating chunk and then more bytes: {rest!r} (all: {raw!r}, addon={addon_choice[0]})")
     X.check(rest == b"", f"C07/{mode}/{direction}/{framing}/bytes-after-message", f"peer received extra bytes after the message: {rest!r} (all: {raw!r})")
     if mode == "buffer":
         X.check(pm.body == total, f"C07/buffer/{direction}/body-differs", f"buffered body forwarded as {pm.body!r}, received {total!r}")
